@@ -1140,6 +1140,17 @@ impl<'a> RepositoryUpdate<'a> {
             }
         }
 
+        // The deltas need to form a contiguous sequence. If there is a gap
+        // (or a duplicate), we can’t get from our serial to theirs.
+        for (delta, expected) in deltas.iter().zip(serial..) {
+            if delta.serial() != expected {
+                self.log.debug(format_args!(
+                    "Delta for serial {} missing.", expected
+                ));
+                return Err(SnapshotReason::BadDeltaSet)
+            }
+        }
+
         if deltas.len() > self.collector.config.max_delta_count {
             self.log.debug(format_args!(
                 "Too many delta steps required ({})", deltas.len()
